@@ -8,6 +8,7 @@ import (
 	"math"
 	"sort"
 	"strings"
+	"time"
 
 	"github.com/cespare/xxhash"
 	"golang.org/x/tools/go/ssa"
@@ -57,6 +58,20 @@ func init() {
 	})
 	reg("time.UnixMilli", func(ex *Exec, fn *ssa.Function, a []Value) Value { return mkTime(term.Mul(a[0].(*term.T), i64(1e6))) })
 	reg("time.UnixMicro", func(ex *Exec, fn *ssa.Function, a []Value) Value { return mkTime(term.Mul(a[0].(*term.T), i64(1e3))) })
+	reg("time.Parse", func(ex *Exec, fn *ssa.Function, a []Value) Value {
+		l, ok1 := a[0].(Str).concrete()
+		v, ok2 := a[1].(Str).concrete()
+		if !ok1 || !ok2 {
+			ex.unsupported("time.Parse of symbolic string")
+		}
+		t, err := time.Parse(l, v)
+		if err != nil {
+			c := new(Value)
+			*c = Struct{Str{s: err.Error()}, Iface{}}
+			return Tuple{mkTime(i64(0)), Iface{T: fmtErrType, V: Ptr{cell: c}}}
+		}
+		return Tuple{mkTime(i64(t.UnixNano())), Iface{}}
+	})
 	reg("time.Sleep", nop)
 	reg("(time.Duration).String", func(ex *Exec, fn *ssa.Function, a []Value) Value { return Str{s: "<duration>"} })
 	reg("time.AfterFunc", func(ex *Exec, fn *ssa.Function, a []Value) Value {
